@@ -259,6 +259,8 @@ def draw_system(rng, seed: int, prop: str, *, families=("single",) * 6 + ("cross
     # then decided by the inner (unseeded) solver's random sketch, so the bootstrapper needs enough samples
     enough = name == "EOF" and all(gen.n_samples_total(descs[k]) >= 4 * int(params["n_modes"]) + 4 for k in ("D0", "D1", "D2"))
     cfg["boot_params"] = {"n_bootstraps": rng.randint(2, 4), "seed": rng.randrange(1000)} if name == "EOF" and not lazy and not wide and enough else None
+    if cfg["boot_params"] and rng.random() < 0.25:
+        params["center"] = False      # (uncentred models are where a bootstrapper that "re-centres" its input shows: C14-a2)
     if dask_eager and cfg["boot_params"]:
         # moderate spectra: neither steep (accuracy of dask's randomised solver) nor flat (eigenvector sensitivity)
         for d in descs.values():
